@@ -42,7 +42,7 @@ def classes : List (String × String × Nat × String) := [
 def staticDescriptions : List String := ["Client has no permission to access user data", "Code challenge failed.", "Invalid 'code' in request.", "Invalid 'code_challenge'", "Invalid 'code_verifier'", "Invalid 'device_code' in payload", "Invalid 'iss' value in assertion", "Invalid 'prompt' parameter.", "Invalid 'redirect_uri' in request.", "Invalid 'response_mode' value", "Invalid 'sub' value in assertion", "Invalid 'username' or 'password' in request.", "Invalid assertion", "Invalid client assertion", "Malformed query string", "Missing 'assertion' in request", "Missing 'client_id' parameter.", "Missing 'code' in request.", "Missing 'code_challenge'", "Missing 'code_verifier'", "Missing 'device_code' in payload", "Missing 'iss' in assertion", "Missing 'nonce' in request.", "Missing 'openid' scope", "Missing 'password' in request.", "Missing 'redirect_uri' in request.", "Missing 'refresh_token' in request.", "Missing 'username' in request.", "Multiple 'code_challenge' in request.", "Multiple 'code_challenge_method' in request.", "Redirect URI is not supported by client.", "Replay attack", "The client does not exist on this server.", "The client does not have permission to read its record.", "There is no 'user' for this code.", "There is no 'user' for this token.", "Unsupported 'code_challenge_method'"]
 
 /-- descriptions that are computed (site: source of the expression) -/
-def dynamicDescriptionSites : List String := ["oauth2/rfc6749/authenticate_client.py: f\"The client cannot authenticate with methods: {methods}\"", "oauth2/rfc6749/authorization_server.py: \"Unsupported scope: \" + \" \".join(sorted(unsupported))", "oauth2/rfc6749/grants/authorization_code.py: f\"The client is not authorized to use 'grant_type={self.GRANT_TYPE}'\"", "oauth2/rfc6749/grants/authorization_code.py: f\"The client is not authorized to use 'response_type={response_type}'\"", "oauth2/rfc6749/grants/base.py: f\"Multiple '{param}' in request.\"", "oauth2/rfc6749/grants/client_credentials.py: f\"The client is not authorized to use 'grant_type={self.GRANT_TYPE}'\"", "oauth2/rfc6749/grants/implicit.py: f\"The client is not authorized to use 'response_type={response_type}'\"", "oauth2/rfc6749/grants/refresh_token.py: f\"The client is not authorized to use 'grant_type={self.GRANT_TYPE}'\"", "oauth2/rfc6749/grants/resource_owner_password_credentials.py: f\"The client is not authorized to use 'grant_type={self.GRANT_TYPE}'\"", "oauth2/rfc7523/client.py: _error_description(e.description)", "oauth2/rfc7523/client.py: f\"The client cannot authenticate with method: {self.CLIENT_AUTH_METHOD}\"", "oauth2/rfc7523/jwt_bearer.py: _error_description(e.description)", "oauth2/rfc7523/jwt_bearer.py: f\"The client is not authorized to use 'grant_type={self.GRANT_TYPE}'\"", "oauth2/rfc7591/endpoint.py: error.description", "oauth2/rfc7592/endpoint.py: error.description", "oauth2/rfc8628/device_code.py: f\"The client is not authorized to use 'response_type={self.GRANT_TYPE}'\""]
+def dynamicDescriptionSites : List String := ["oauth2/rfc6749/authenticate_client.py: f\"The client cannot authenticate with methods: {methods}\"", "oauth2/rfc6749/grants/authorization_code.py: f\"The client is not authorized to use 'grant_type={self.GRANT_TYPE}'\"", "oauth2/rfc6749/grants/authorization_code.py: f\"The client is not authorized to use 'response_type={response_type}'\"", "oauth2/rfc6749/grants/base.py: f\"Multiple '{param}' in request.\"", "oauth2/rfc6749/grants/client_credentials.py: f\"The client is not authorized to use 'grant_type={self.GRANT_TYPE}'\"", "oauth2/rfc6749/grants/implicit.py: f\"The client is not authorized to use 'response_type={response_type}'\"", "oauth2/rfc6749/grants/refresh_token.py: f\"The client is not authorized to use 'grant_type={self.GRANT_TYPE}'\"", "oauth2/rfc6749/grants/resource_owner_password_credentials.py: f\"The client is not authorized to use 'grant_type={self.GRANT_TYPE}'\"", "oauth2/rfc7523/client.py: _error_description(e.description)", "oauth2/rfc7523/client.py: f\"The client cannot authenticate with method: {self.CLIENT_AUTH_METHOD}\"", "oauth2/rfc7523/jwt_bearer.py: _error_description(e.description)", "oauth2/rfc7523/jwt_bearer.py: f\"The client is not authorized to use 'grant_type={self.GRANT_TYPE}'\"", "oauth2/rfc7591/endpoint.py: error.description", "oauth2/rfc7592/endpoint.py: error.description", "oauth2/rfc8628/device_code.py: f\"The client is not authorized to use 'response_type={self.GRANT_TYPE}'\""]
 
 def validRanges : List (Nat × Nat) := [(32, 33), (35, 91), (93, 126)]
 
